@@ -1,6 +1,7 @@
 package mcrt
 
 import (
+	"fmt"
 	"io"
 	"os"
 	"reflect"
@@ -116,6 +117,31 @@ func Yield(label string) {
 		return
 	}
 	s.park(&op{kind: opYield, label: label})
+}
+
+// SpinLimit is the number of loop iterations one thread may perform without
+// reaching a scheduling point before the execution is declared a livelock.
+// It is a count, not a duration, so the verdict is the same on every run.
+var SpinLimit = 20000000
+
+// Spin is inserted at the top of every `for` body of instrumented packages
+// that do not get yield points.  A thread that goes round a loop SpinLimit
+// times without a hooked operation in between is spinning: nothing another
+// thread does can be observed by it, so it will never leave the loop.
+func Spin(label string) {
+	s := cur
+	if s == nil || s.running == nil {
+		return
+	}
+	t := s.running
+	if t.aborting {
+		return
+	}
+	t.spin++
+	if t.spin > SpinLimit {
+		t.spin = 0
+		panic(fmt.Sprintf("livelock: thread %q went round the loop at %s %d times without reaching a scheduling point", t.name, label, SpinLimit))
+	}
 }
 
 // Now is time.Now on the virtual clock.
@@ -248,6 +274,49 @@ func MuLock(key interface{}) bool {
 	}
 	s.park(&op{kind: opLock, mu: s.muOf(key)})
 	return true
+}
+
+// MuTryLock is sync.(RW)Mutex.TryLock / TryRLock: a scheduling point, after
+// which the attempt succeeds or fails on the lock state found; it never blocks.
+// The outcome becomes part of the caller's local history.
+func MuTryLock(key interface{}, read bool) (handled, got bool) {
+	s := cur
+	if s == nil {
+		return false, false
+	}
+	t := s.running
+	if t.aborting {
+		return true, false
+	}
+	s.park(&op{kind: opYield, label: "trylock"})
+	m := s.muOf(key)
+	switch {
+	case read:
+		got = !m.writer
+		if got {
+			// as the runtime does, fail when a writer is already waiting
+			for _, u := range s.threads {
+				if u != t && !u.done && u.pend != nil && u.pend.kind == opLock && u.pend.mu == m && u.pend.rw {
+					got = false
+				}
+			}
+		}
+		if got {
+			m.readers++
+		}
+	default:
+		got = !m.writer && m.readers == 0
+		if got {
+			m.writer = true
+		}
+	}
+	g := uint64(0)
+	if got {
+		g = 1
+		m.hist = mix(m.hist, uint64(t.id)+1, uint64(opLock), 0x7)
+	}
+	t.hist = mix(t.hist, 0x71, uint64(m.id), g)
+	return true, got
 }
 
 // MuUnlock releases it.
